@@ -107,10 +107,10 @@ def Stage.onNotif (st : Stage) (j : Nat) (n : Notif) (s : Sched) : Stage × List
         (.throttleW d edge alive tr2, out, s)
       else (.throttle d edge alive tr1 handler, [], s)
   | .throttle d edge alive tr handler, .error e =>
-      (.throttle d edge false tr handler, if alive then [.error e] else [],
+      (.throttle d edge false tr none, if alive then [.error e] else [],
         match handler with | some h => s.cancel h | none => s)
   | .throttle d edge alive tr handler, .complete =>
-      (.throttle d edge false none handler,
+      (.throttle d edge false none none,
         if alive then (match tr with | some v => [.next v] | none => []) ++ [.complete] else [],
         match handler with | some h => s.cancel h | none => s)
   | .throttleW d edge alive tr, _ => (.throttleW d edge alive tr, [], s)   -- unreachable (no re-entrancy)
@@ -367,6 +367,11 @@ def unsubFrom (w : TW) : Nat → TW
         let w1 := unsubFrom w j
         let s := match handler with | some h => w1.sched.cancel h | none => w1.sched
         { w1 with sched := s }.setStage j (.debounce d alive tr none)
+    | some (.throttle d e alive tr handler) =>
+        -- after `fix: throttle … unsubscribe`: ZipSubscription(source, handler cell)
+        let w1 := unsubFrom w j
+        let s := match handler with | some h => w1.sched.cancel h | none => w1.sched
+        { w1 with sched := s }.setStage j (.throttle d e alive tr none)
     | some (.bufTime _ _ _ _ (some h)) =>
         -- ZipSubscription(handle, source): the flush task first
         unsubFrom { w with sched := w.sched.cancel h } j
@@ -398,6 +403,7 @@ def isClosedFrom (w : TW) : Nat → Bool
         if w.sched.handleClosed h then isClosedFrom w j else false
     | some (.subscribeOn _ none) => false
     | some (.debounce _ _ _ handler) => isClosedFrom w j && handler.isNone
+    | some (.throttle _ _ _ _ handler) => isClosedFrom w j && handler.isNone
     | some (.bufTime _ _ _ _ (some h)) => w.sched.handleClosed h && isClosedFrom w j
     | some (.op2n _ nsrc na nt) =>
         isClosedFrom w j &&
